@@ -675,7 +675,8 @@ ssize_t _GD_SampIndWrite(struct gd_raw_file_ *restrict file,
   else
     f->bof = 1;
 
-  f->p = f->s = FIXSEX(f->swap, f->d[0]);
+  f->s = FIXSEX(f->swap, f->d[0]);
+  f->p = f->s + 1; /* the next sample, as after reading through a record */
   f->r = fr + rin - 1;
   f->have_l = 0;
 
